@@ -37,19 +37,26 @@ type c06Scenario struct {
 	Maint    string     // cmphead | cmpooo | compact | cmpblocks
 	Ranges   [][2]int64 // one querier per range
 	PreBlock int        // number of head compactions performed in set-up
+	// Appender: an extra thread commits one out-of-order sample (s1@575) while the maintenance runs;
+	// CrashCheck: afterwards the live directory is copied (= kill -9 image), reopened, and every
+	// acknowledged sample must be there (C03 meets C06: a crash right after concurrent maintenance).
+	Appender   bool
+	CrashCheck bool
 }
 
 func c06Scenarios() []c06Scenario {
 	full := [2]int64{math.MinInt64, math.MaxInt64}
 	return []c06Scenario{
-		{"cmphead/q-full", "cmphead", [][2]int64{full}, 0},
-		{"cmphead/q-truncated-range", "cmphead", [][2]int64{{0, 99}}, 0},
-		{"cmphead/q-straddling", "cmphead", [][2]int64{{50, 150}}, 0},
-		{"cmpooo/q-full", "cmpooo", [][2]int64{full}, 0},
-		{"compact/q-full", "compact", [][2]int64{full}, 0},
-		{"cmphead/2q", "cmphead", [][2]int64{full, {0, 120}}, 0},
-		{"cmphead/q-old-ooo", "cmphead", [][2]int64{{0, 425}}, 0},
-		{"cmpblocks/q-full", "cmpblocks", [][2]int64{full}, 4},
+		{"cmphead/q-full", "cmphead", [][2]int64{full}, 0, false, false},
+		{"cmphead/q-truncated-range", "cmphead", [][2]int64{{0, 99}}, 0, false, false},
+		{"cmphead/q-straddling", "cmphead", [][2]int64{{50, 150}}, 0, false, false},
+		{"cmpooo/q-full", "cmpooo", [][2]int64{full}, 0, false, false},
+		{"compact/q-full", "compact", [][2]int64{full}, 0, false, false},
+		{"cmphead/2q", "cmphead", [][2]int64{full, {0, 120}}, 0, false, false},
+		{"cmphead/q-old-ooo", "cmphead", [][2]int64{{0, 425}}, 0, false, false},
+		{"cmpblocks/q-full", "cmpblocks", [][2]int64{full}, 4, false, false},
+		{"cmpooo+ooo-append/crash", "cmpooo", [][2]int64{full}, 0, true, true},
+		{"compact+ooo-append/crash", "compact", nil, 0, true, true},
 	}
 }
 
@@ -69,6 +76,8 @@ var c06OOO = map[string][]int64{ // appended after the in-order data (window 50 
 var c06Late = map[string][]int64{"s1": {620}}
 
 type c06Obs struct {
+	appended bool // the concurrent appender's Commit returned nil
+	appErr   string
 	dir      string
 	db       *DB
 	maintErr string
@@ -168,6 +177,21 @@ func c06Body(sc c06Scenario, obs *c06Obs) func() {
 				obs.maintErr = err.Error()
 			}
 		}))
+		if sc.Appender {
+			ths = append(ths, vsched.GoNamed("app", func() {
+				a := db.Appender(context.Background())
+				if _, err := a.Append(0, dbxSeries["s1"], 575, 575); err != nil {
+					obs.appErr = err.Error()
+					_ = a.Rollback()
+					return
+				}
+				if err := a.Commit(); err != nil {
+					obs.appErr = err.Error()
+					return
+				}
+				obs.appended = true
+			}))
+		}
 		for qi, rg := range sc.Ranges {
 			qi, rg := qi, rg
 			ths = append(ths, vsched.GoNamed(fmt.Sprintf("q%d", qi), func() {
@@ -232,6 +256,15 @@ func c06Eval(sc c06Scenario, tr vsched.Trace, obs *c06Obs) (string, string) {
 				}
 			}
 			g := got[sk]
+			if sc.Appender && sk == "s1" { // a sample committed concurrently may or may not be visible
+				var g2 []int64
+				for _, t := range g {
+					if t != 575 {
+						g2 = append(g2, t)
+					}
+				}
+				g = g2
+			}
 			for i := 1; i < len(g); i++ {
 				if g[i] == g[i-1] {
 					return "sample-duplicated", fmt.Sprintf("querier %d [%d,%d] racing with %s: series %s returns t=%d twice: %v", qi, rg[0], rg[1], sc.Maint, sk, g[i], g)
@@ -246,6 +279,43 @@ func c06Eval(sc c06Scenario, tr vsched.Trace, obs *c06Obs) (string, string) {
 					kind = "sample-extra"
 				}
 				return kind, fmt.Sprintf("querier %d [%d,%d] racing with %s: series %s returns %v, committed before the query started: %v", qi, rg[0], rg[1], sc.Maint, sk, g, want)
+			}
+		}
+	}
+	if sc.Appender && obs.appErr != "" {
+		return "concurrent-append-error", obs.appErr
+	}
+	if sc.CrashCheck {
+		// kill -9 image of the directory as it is now; every acknowledged sample must survive
+		img, _ := os.MkdirTemp("", "c06crash")
+		defer os.RemoveAll(img)
+		if err := dbxCopyDir(obs.dir, img); err != nil {
+			panic(err)
+		}
+		db2, err := Open(img, nil, nil, dbxConfigs()["ooo"].options(), nil)
+		if err != nil {
+			return "reopen-after-crash-failed", err.Error()
+		}
+		x := &dbx{db: db2, m: newDBModel(dbxR, 50)}
+		res, err := x.queryRange(db2, db2, math.MinInt64, math.MaxInt64, false)
+		db2.Close()
+		if err != nil {
+			return "query-after-crash-failed", err.Error()
+		}
+		for sk, exp := range obs.expected {
+			want := append([]int64{}, exp...)
+			if sk == "s1" && obs.appended {
+				want = append(want, 575)
+				sort.Slice(want, func(i, j int) bool { return want[i] < want[j] })
+			}
+			have := map[int64]bool{}
+			for _, smp := range res[sk] {
+				have[smp.t] = true
+			}
+			for _, t := range want {
+				if !have[t] {
+					return "acknowledged-sample-lost-after-crash", fmt.Sprintf("after %s with a concurrent out-of-order append and a crash: series %s lacks acknowledged sample t=%d; recovered %v", sc.Maint, sk, t, res[sk])
+				}
 			}
 		}
 	}
